@@ -341,6 +341,10 @@ func (x *Exec) wf(st *State, v SV) {
 			st.assume(lenLe(ln, cp))
 			st.assume(BvCmp("bvsle", cp, lim))
 			st.assume(lenLe(off, lim))
+			if i >= 2 && ls[i-2].kind == "arr" && !v.l[i-2].isConst() {
+				// a non-empty slice has a backing array
+				st.assume(Implies(BvCmp("bvslt", mkBV(0, 64), ln), Neq(v.l[i-2], nilRef)))
+			}
 		}
 	}
 }
@@ -748,6 +752,24 @@ func (x *Exec) finish(st *State, fr *Frame, results []SV, pos token.Pos) {
 		name := fmt.Sprintf("post:%s#%d", x.targetName(), i+1)
 		x.oblige(st, name, "post", en.text, pos, t)
 		x.obligs[name].clause = en.text
+		// vacuity guard: a postcondition "A ==> B" must be able to apply - some path reaches a return with A
+		if ce, ok := en.expr.(*ast.CallExpr); ok && !st.mute {
+			if id, ok := ce.Fun.(*ast.Ident); ok && id.Name == "implies_" && len(ce.Args) == 2 {
+				if a, e := env.EvalBool(ce.Args[0]); e == nil {
+					cn := fmt.Sprintf("cover:post:%s#%d:antecedent", x.targetName(), i+1)
+					o := x.obligs[cn]
+					if o == nil {
+						o = &Oblig{name: cn, kind: "cover", fn: x.target.String(), desc: "some path makes the antecedent of this postcondition true: " + en.text, props: x.curProps}
+						x.obligs[cn] = o
+						x.oblOrder = append(x.oblOrder, cn)
+					}
+					if len(o.disj) < 64 && a != False {
+						o.disj = append(o.disj, And(append(append([]*Term{}, st.pc...), a)...))
+					}
+					o.paths++
+				}
+			}
+		}
 	}
 	if c.hasMod {
 		x.frameCheck(st, fr, env, c, pos)
